@@ -213,6 +213,11 @@ func Payload(sp *spec.Spec, m *spec.Method, r *vc.Rand, mode int) (tree any, non
 			arr, _ = g.Valid(a.Type, a.Val, loc, 1).([]any)
 			g.MinElems = 0
 			if len(arr) == 0 {
+				if rt.IsRequired(a.Name) {
+					// required, and only the empty collection satisfies the design: it cannot be spelled outside
+					// the body, so no valid request exists for this method
+					return nil, false
+				}
 				continue
 			}
 			v = arr
